@@ -519,8 +519,10 @@ class SeqModel:
         getattr(self, 'op_' + op[0])(*op[1:])
         self.invariant()
 
-    def op_start(self, base, fault, sel, max_iter):
+    def op_start(self, base, fault, sel, max_iter, pq2z=1):
         rc = {'PFlow': dict(report=0), 'TDS': dict(no_tqdm=1, tf=0.2, max_iter=max_iter, criteria=1), 'EIG': dict(plot=0)}
+        if not pq2z:
+            rc['PQ'] = dict(pq2z=0)          # loads stay constant power outside the voltage band: overload is infeasible
         ss = build.load_case(os.path.join(build.cases_root(), base), rc=rc, setup=False)
         for m in ('Toggle', 'Fault', 'Alter'):
             mdl = getattr(ss, m)
@@ -532,7 +534,7 @@ class SeqModel:
         if not ss.setup():
             raise RuntimeError('setup failed')
         self.ss = ss
-        self.hist.append(['start', base, fault, sel, max_iter])
+        self.hist.append(['start', base, fault, sel, max_iter, pq2z])
         self.outcomes.append(None)
 
     def op_scale(self, k):
@@ -571,6 +573,15 @@ class SeqModel:
             self.fail_paths.add('pflow')
         if ret and not (finite(ss.dae.x) and finite(ss.dae.y)):
             self.fail('success_with_nan_state', dict(routine='pflow'), sig=dict(seq=True))
+        if ret:
+            # a reported success: the residual of the reported state, re-evaluated through the routine's own update
+            try:
+                ss.PFlow.fg_update()
+                res = max(float(np.max(np.abs(ss.dae.g))) if ss.dae.m else 0.0, float(np.max(np.abs(ss.dae.f))) if ss.dae.n else 0.0)
+            except Exception:
+                res = 0.0
+            if not np.isfinite(res) or res > 1e-3:
+                self.fail('success_with_nonfinite_or_large_residual', dict(routine='pflow', residual=res), sig=dict(seq=True))
         if bool(ss.PFlow.converged) != ret:
             self.fail('flags_disagree_with_return', dict(converged=bool(ss.PFlow.converged), returned=ret), sig=dict(seq=True))
 
@@ -686,9 +697,9 @@ def make_machine(ctx):
 
         @initialize(base=st.sampled_from(['kundur/kundur_full.xlsx', 'ieee14/ieee14_full.xlsx', '5bus/pjm5bus.xlsx']),
                     fault=st.sampled_from([None, None, [1.5, 1e-4], [0.05, 1e-2]]),
-                    sel=st.integers(0, 30), max_iter=st.sampled_from([15, 15, 2]))
-        def start(self, base, fault, sel, max_iter):
-            self.m.op_start(base, fault, sel, max_iter)
+                    sel=st.integers(0, 30), max_iter=st.sampled_from([15, 15, 2]), pq2z=st.sampled_from([1, 0, 0]))
+        def start(self, base, fault, sel, max_iter, pq2z):
+            self.m.op_start(base, fault, sel, max_iter, pq2z)
 
         @precondition(lambda self: self.m.ss is not None and not self.m.tds_started)
         @rule(k=st.sampled_from([40.0, 0.5, 0.025, 100.0]))
@@ -730,7 +741,25 @@ def make_machine(ctx):
     return Seq
 
 
+ANCHOR_HISTORIES = [
+    # a converged power flow, then the case made infeasible (constant-power loads x40), then the routines again
+    [['start', 'kundur/kundur_full.xlsx', None, 0, 15, 0], ['pflow'], ['scale', 40.0], ['pflow'], ['tds', 0.1], ['eig']],
+    [['start', 'ieee14/ieee14_full.xlsx', None, 0, 15, 0], ['pflow'], ['scale', 100.0], ['pflow'], ['eig'], ['tds', 0.1]],
+    # iteration limit hit on a re-run after a success
+    [['start', '5bus/pjm5bus.xlsx', None, 0, 15, 1], ['pflow'], ['scale', 0.5], ['pf_iter', 0], ['pflow'], ['tds', 0.1]],
+]
+
+
 def camp_seq(ctx):
+    if ctx.shard == 0:
+        for hist in ANCHOR_HISTORIES:
+            m = SeqModel(ctx)
+            ctx.current_case = dict(history=hist)
+            ctx.evaluated()
+            ctx.count('seq:anchor')
+            for op in hist:
+                m.apply(op)
+            m.finish()
     M = make_machine(ctx)
     n = dict(quick=16, thorough=200)[ctx.tier]
     done = drive_machine(ctx, M, n=n, steps=12, name='seq', budget_s=dict(quick=170, thorough=2000)[ctx.tier], shrink=ctx.tier != 'quick')
